@@ -8,6 +8,7 @@ import (
 	"encoding/binary"
 	"encoding/json"
 	"fmt"
+	"net/textproto"
 	"sort"
 	"strings"
 
@@ -15,6 +16,7 @@ import (
 	"github.com/cloudwego/dynamicgo/conv/j2t"
 	"github.com/cloudwego/dynamicgo/conv/j2tportable"
 	"github.com/cloudwego/dynamicgo/conv/t2j"
+	dhttp "github.com/cloudwego/dynamicgo/http"
 	"github.com/cloudwego/dynamicgo/thrift"
 	_ "github.com/cloudwego/dynamicgo/thrift/annotation"
 	"github.com/cloudwego/dynamicgo/thrift/generic"
@@ -39,6 +41,7 @@ type f16 struct {
 	ID      int
 	Req     int // 0 default, 1 required, 2 optional
 	Ty      thrift.Type
+	HTTP    string // header the field is mapped to by api.header ("" = none)
 	EnumDef bool // the default is an enum identifier (Color.BLUE = 3): its encoding follows the field's own type
 	Sub     *s16
 	HasDef  bool
@@ -139,9 +142,24 @@ func (g *g16) genStruct(depth int) *s16 {
 				}
 			}
 		}
+		switch f.Ty {
+		case thrift.BOOL, thrift.I32, thrift.I64, thrift.STRING, thrift.I16, thrift.I08:
+			if r.chance(30) {
+				f.HTTP = fmt.Sprintf("h%dx%d", s.idx, f.ID)
+			}
+		}
 		s.Fields = append(s.Fields, f)
 	}
 	return s
+}
+
+func (s *s16) hasHTTP() bool {
+	for _, f := range s.Fields {
+		if f.HTTP != "" || (f.Sub != nil && f.Sub.hasHTTP()) {
+			return true
+		}
+	}
+	return false
 }
 
 // the Thrift type of the field under the parse options pb (bit 2 = ParseEnumAsInt64)
@@ -247,9 +265,16 @@ func (g *g16) idl(root *s16) string {
 			if f.HasDef {
 				def = " = " + f.DefIDL
 			}
-			ann := ""
+			var anns []string
 			if f.Alias != f.Name {
-				ann = fmt.Sprintf(" (api.key = \"%s\")", f.Alias)
+				anns = append(anns, fmt.Sprintf("api.key = \"%s\"", f.Alias))
+			}
+			if f.HTTP != "" {
+				anns = append(anns, fmt.Sprintf("api.header = \"%s\"", f.HTTP))
+			}
+			ann := ""
+			if len(anns) > 0 {
+				ann = " (" + strings.Join(anns, ", ") + ")"
 			}
 			sb.WriteString(fmt.Sprintf("  %d: %s%s %s%s%s\n", f.ID, req, f.idlType(), f.Name, def, ann))
 		}
@@ -270,6 +295,7 @@ func (g *g16) defsFields(pb int) []string {
 			}
 			out = append(out, fi(f.ID), fi(f.Req), fi(int(f.tyFor(pb))), fi(sub), fb(f.HasDef), fx(f.defBinFor(pb)), fs(f.DefJSON), fs(f.Name), fs(f.Alias))
 			out = append(out, f.litFields()...)
+			out = append(out, fs(f.HTTP))
 		}
 	}
 	return out
@@ -511,8 +537,89 @@ func genC16Structs(r *rng, n int) {
 			if err != nil {
 				die("C16 IDL second parse: %v", err)
 			}
+			// the requires bitmap of every struct descriptor: as built, and again after all the conversions below used it
+			sds := map[int]*thrift.StructDescriptor{}
+			var collect func(d *thrift.TypeDescriptor, s *s16)
+			collect = func(d *thrift.TypeDescriptor, s *s16) {
+				sds[s.idx] = d.Struct()
+				for _, f := range s.Fields {
+					if f.Sub != nil {
+						collect(d.Struct().FieldById(thrift.FieldID(f.ID)).Type(), f.Sub)
+					}
+				}
+			}
+			collect(desc, root)
+			pristine := map[int][]uint64{}
+			for i, sd := range sds {
+				pristine[i] = append([]uint64(nil), sd.Requires()...)
+			}
+			dumpBitmaps := func() {
+				for i := 0; i < len(g.structs); i++ {
+					sd, ok := sds[i]
+					if !ok {
+						continue
+					}
+					f := append([]string(nil), defs...)
+					f = append(f, fi(i), fi(pb), fi(len(pristine[i])))
+					for _, w := range pristine[i] {
+						f = append(f, fu(w))
+					}
+					cur := sd.Requires()
+					f = append(f, fi(len(cur)))
+					for _, w := range cur {
+						f = append(f, fu(w))
+					}
+					out.emit(1605, f...)
+				}
+			}
+			dumpBitmaps()
 			for wb := 0; wb < 16; wb++ {
 				copts := conv.Options{WriteRequireField: wb&1 != 0, WriteDefaultField: wb&2 != 0, WriteOptionalField: wb&4 != 0, DisallowUnknownField: wb&8 != 0}
+				// an EMPTY-body http request on the SHARED descriptor first (headers supply some of the mapped top-level fields):
+				// whatever it does to shared state is seen by the conversions that follow
+				{
+					var hm []*m16
+					req, rerr := dhttp.NewHTTPRequestFromUrl("GET", "http://localhost/x", nil)
+					if rerr != nil {
+						die("http request: %v", rerr)
+					}
+					for _, f := range root.Fields {
+						if f.HTTP == "" || !r.chance(60) {
+							continue
+						}
+						var b []byte
+						var j string
+						for {
+							b, j = g.scalarValue(f.Ty)
+							if j != "\"\"" {
+								break
+							}
+						}
+						hm = append(hm, &m16{F: f, Ty: f.tyFor(pb), State: 2, Bin: b, JSON: j})
+						req.Request.Header.Set(f.HTTP, strings.Trim(j, "\""))
+					}
+					hopts := copts
+					hopts.EnableHttpMapping = true
+					hctx := context.WithValue(ctx, conv.CtxKeyHTTPRequest, req)
+					for ei, run := range []func() ([]byte, error){
+						func() ([]byte, error) { cv := j2t.NewBinaryConv(hopts); return cv.Do(hctx, desc, []byte{}) },
+						func() ([]byte, error) { cv := j2tportable.NewBinaryConv(hopts); return cv.Do(hctx, desc, []byte{}) },
+					} {
+						var ob []byte
+						var e error
+						ec := 0
+						if ok, _ := noPanic(func() { ob, e = run() }); !ok {
+							ec = 9
+						} else if ec = errClass(e); ec != 0 {
+							ob = nil
+						}
+						f := append([]string(nil), defs...)
+						f = append(f, fi(root.idx), fi(pb), fi(wb))
+						f = append(f, g.membersFields(hm)...)
+						f = append(f, fi(ec), fx(ob))
+						out.emit(1606+ei, f...)
+					}
+				}
 				for k := 0; k < 2-pb/4; k++ {
 					mode := 0
 					if k == 1 && r.chance(30) {
@@ -557,19 +664,42 @@ func genC16Structs(r *rng, n int) {
 					ms2 := g.genMembers(root, 0, mode, false, pb)
 					tb := thriftOf(ms2)
 					{
-						cv := t2j.NewBinaryConv(copts)
+						// with http mapping: a recording response setter in the context; fields mapped to a header (at the top
+						// level and inside nested structs) are delivered there, present or filled
+						httpMode := root.hasHTTP() && r.chance(50)
+						topts := copts
+						tctx := ctx
+						resp := dhttp.NewHTTPResponse()
+						if httpMode {
+							topts.EnableHttpMapping = true
+							tctx = context.WithValue(ctx, conv.CtxKeyHTTPResponse, resp)
+						}
+						cv := t2j.NewBinaryConv(topts)
 						var ob []byte
 						var e error
 						ec := 0
-						if ok, _ := noPanic(func() { ob, e = cv.Do(ctx, desc, tb) }); !ok {
+						if ok, _ := noPanic(func() { ob, e = cv.Do(tctx, desc, tb) }); !ok {
 							ec = 9
 						} else {
 							ec = errClass(e)
 						}
-						extra := []string{fi(0)}
+						extra := []string{fb(httpMode), fi(0)}
 						if ec == 0 {
 							if toks, ok := jsonTokens(ob, root); ok {
-								extra = append([]string{fi(1)}, toks...)
+								extra = append([]string{fb(httpMode), fi(1)}, toks...)
+								var hs []string
+								for _, st := range g.structs {
+									for _, f := range st.Fields {
+										if f.HTTP == "" {
+											continue
+										}
+										if vals, ok := resp.Header[textproto.CanonicalMIMEHeaderKey(f.HTTP)]; ok {
+											hs = append(hs, fs(f.HTTP), fs(strings.Join(vals, "\x00")))
+										}
+									}
+								}
+								extra = append(extra, fi(len(hs)/2))
+								extra = append(extra, hs...)
 							}
 						} else {
 							ob = nil
@@ -591,6 +721,7 @@ func genC16Structs(r *rng, n int) {
 					}
 				}
 			}
+			dumpBitmaps() // pristine words against what the descriptors hold after all these conversions
 		}
 	}
 }
